@@ -238,6 +238,13 @@ def _store_array(
     identity = lambda a: a
     blockwise_kwargs = blockwise_kwargs or {}
     if region is None or all(r == slice(None) for r in region):
+        if is_storage_array(target) and (
+            len(target.shape) != source.ndim
+            or any(s > t for s, t in zip(source.shape, target.shape))
+        ):
+            raise ValueError(
+                f"Source array shape {source.shape} does not fit into target shape {target.shape}"
+            )
         if (
             not isinstance(source._zarray, LazyZarrArray)
             or getattr(source._zarray, "relocated", False)
